@@ -278,6 +278,11 @@ func lastLines(s string, n int) string {
 
 func (o *Orch) workerEnv() []string {
 	env := os.Environ()
+	// scratch files of the monitors live under the run's work directory, which is removed when the run ends
+	// (a worker that is killed cannot clean up after itself)
+	tmp := filepath.Join(o.Work, "tmp")
+	os.MkdirAll(tmp, 0o755)
+	env = append(env, "TMPDIR="+tmp)
 	if o.P.Race {
 		env = append(env, "GORACE=halt_on_error=0 exitcode=0 log_path="+filepath.Join(o.Work, "race.log")+" history_size=2")
 	}
